@@ -38,11 +38,39 @@ type selCfg struct {
 }
 
 type latGroup struct {
-	G struct {
-		Strategy int `json:"strategy"`
-		Adaptive int `json:"adaptive"`
-	} `json:"g"`
-	Pairs [][]interface{} `json:"pairs"`
+	Strategy int    `json:"strategy"`
+	LW       string `json:"lw"`
+	SW       string `json:"sw"`
+}
+
+// window returns the (p10, p90) pair a getter of the given kind answers; scale = typical magnitude
+// (latency: seconds, sync: seconds of lag).  NaN / Inf cannot travel through JSON, so the driver owns them.
+func window(kind string, lo, hi, eq float64) (float64, float64) {
+	switch kind {
+	case "valid":
+		return lo, hi
+	case "tight":
+		return eq, eq * 1.0000001
+	case "equal":
+		return eq, eq
+	case "reversed":
+		return hi, lo
+	case "zero":
+		return 0, hi
+	case "bothzero":
+		return 0, 0
+	case "negative":
+		return -lo, hi
+	case "nan10":
+		return math.NaN(), hi
+	case "nan90":
+		return lo, math.NaN()
+	case "inf90":
+		return lo, math.Inf(1)
+	case "neginf10":
+		return math.Inf(-1), hi
+	}
+	return 0, 0
 }
 
 type input struct {
@@ -56,13 +84,28 @@ type input struct {
 		S []string  `json:"s"`
 		K []int64   `json:"k"`
 		O int64     `json:"others"`
-		B []float64 `json:"bounds"` // latency p10,p90, sync p10,p90
+		B []float64 `json:"bounds"` // latency p10,p90,equal value, sync p10,p90,equal value
 	} `json:"grid"`
-	Lat []latGroup `json:"lat"`
+	Pairs     [][]interface{} `json:"pairs"`
+	Lat       []latGroup      `json:"lat"`
+	RealDraws int             `json:"realDraws"`
 }
 
 func qos(a, l, s string) *pairingtypes.QualityOfServiceReport {
 	return &pairingtypes.QualityOfServiceReport{Availability: sdk.MustNewDecFromStr(a), Latency: sdk.MustNewDecFromStr(l), Sync: sdk.MustNewDecFromStr(s)}
+}
+
+func clampInt(x float64) int {
+	if math.IsNaN(x) {
+		return -1
+	}
+	if x > 2 {
+		return 2000000
+	}
+	if x < -2 {
+		return -2000000
+	}
+	return int(x * 1e6)
 }
 
 func sign(x float64) int {
@@ -148,33 +191,32 @@ func main() {
 		}
 	}
 
-	// ---------------- lattice
+	// ---------------- lattice + real-weight draws, per (strategy, latency window, sync window) group
 	g := in.Grid
-	for _, grp := range in.Lat {
+	finite := func(x float64) bool { return !math.IsNaN(x) && !math.IsInf(x, 0) }
+	mk := func(strategy int, lw, sw string) *provideroptimizer.WeightedSelector {
 		cfg := provideroptimizer.DefaultWeightedSelectorConfig()
-		cfg.Strategy = provideroptimizer.Strategy(grp.G.Strategy)
-		lb := func() (float64, float64) { return g.B[0], g.B[1] }
-		sb := func() (float64, float64) { return g.B[2], g.B[3] }
-		bad := func() (float64, float64) { return 5, 5 }
-		switch grp.G.Adaptive {
-		case 1:
-			cfg.UseAdaptiveLatencyMax, cfg.AdaptiveLatencyGetter = true, lb
-		case 2:
-			cfg.UseAdaptiveSyncMax, cfg.AdaptiveSyncGetter = true, sb
-		case 3:
-			cfg.UseAdaptiveLatencyMax, cfg.AdaptiveLatencyGetter = true, lb
-			cfg.UseAdaptiveSyncMax, cfg.AdaptiveSyncGetter = true, sb
-		case 4:
-			cfg.UseAdaptiveLatencyMax, cfg.AdaptiveLatencyGetter = true, bad
-			cfg.UseAdaptiveSyncMax, cfg.AdaptiveSyncGetter = true, bad
+		cfg.Strategy = provideroptimizer.Strategy(strategy)
+		if lw != "off" {
+			cfg.UseAdaptiveLatencyMax = true
+			cfg.AdaptiveLatencyGetter = func() (float64, float64) { return window(lw, g.B[0], g.B[1], g.B[2]) }
 		}
-		sel := provideroptimizer.NewWeightedSelector(cfg)
+		if sw != "off" {
+			cfg.UseAdaptiveSyncMax = true
+			cfg.AdaptiveSyncGetter = func() (float64, float64) { return window(sw, g.B[3], g.B[4], g.B[5]) }
+		}
+		return provideroptimizer.NewWeightedSelector(cfg)
+	}
+	for gi, grp := range in.Lat {
+		sel := mk(grp.Strategy, grp.LW, grp.SW)
+		refL := mk(grp.Strategy, "off", grp.SW) // latency getter switched off
+		refS := mk(grp.Strategy, grp.LW, "off") // sync getter switched off
 		mc := sel.GetConfig().MinSelectionChance
-		score := func(a, l, s, k int) float64 {
+		score := func(ws *provideroptimizer.WeightedSelector, a, l, s, k int) float64 {
 			st := g.K[k]
-			return sel.CalculateScore(qos(g.A[a], g.L[l], g.S[s]), sdk.NewCoin("ulava", sdk.NewInt(st)), sdk.NewCoin("ulava", sdk.NewInt(st+g.O)), "p")
+			return ws.CalculateScore(qos(g.A[a], g.L[l], g.S[s]), sdk.NewCoin("ulava", sdk.NewInt(st)), sdk.NewCoin("ulava", sdk.NewInt(st+g.O)), "p")
 		}
-		for _, p := range grp.Pairs {
+		for _, p := range in.Pairs {
 			a, l, s, k := int(p[0].(float64)), int(p[1].(float64)), int(p[2].(float64)), int(p[3].(float64))
 			co := p[4].(string)
 			a2, l2, s2, k2 := a, l, s, k
@@ -191,10 +233,76 @@ func main() {
 			if a2 >= len(g.A) || l2 >= len(g.L) || s2 >= len(g.S) || k2 >= len(g.K) {
 				hx.Die("pair %v outside the grid", p)
 			}
-			w0, w1 := score(a, l, s, k), score(a2, l2, s2, k2)
-			out.Emit(M{"ev": "lat", "strategy": grp.G.Strategy, "adaptive": grp.G.Adaptive, "p": []interface{}{a, l, s, k, co},
-				"cmp": sign(w1 - w0), "inRange": w0 >= mc && w0 <= 1 && w1 >= mc && w1 <= 1 && !math.IsNaN(w0) && !math.IsNaN(w1),
-				"w0": int(w0 * 1e6), "w1": int(w1 * 1e6), "desc": fmt.Sprintf("a=%s l=%s s=%s stake=%d", g.A[a], g.L[l], g.S[s], g.K[k])})
+			w0, w1 := score(sel, a, l, s, k), score(sel, a2, l2, s2, k2)
+			fin := finite(w0) && finite(w1)
+			cmp := 2 // not comparable (NaN)
+			if fin {
+				cmp = sign(w1 - w0)
+			}
+			out.Emit(M{"ev": "lat", "strategy": grp.Strategy, "lw": grp.LW, "sw": grp.SW, "p": []interface{}{a, l, s, k, co},
+				"finite": fin, "cmp": cmp, "inRange": fin && w0 >= mc && w0 <= 1 && w1 >= mc && w1 <= 1,
+				"eqOffL": w0 == score(refL, a, l, s, k), "eqOffS": w0 == score(refS, a, l, s, k),
+				"w0": clampInt(w0), "w1": clampInt(w1), "desc": fmt.Sprintf("a=%s l=%s s=%s stake=%d", g.A[a], g.L[l], g.S[s], g.K[k])})
+		}
+		// draws with the real (non dyadic) weights of this group: three providers with different QoS
+		qs := map[string]*pairingtypes.QualityOfServiceReport{
+			"p1": qos(g.A[len(g.A)-1], g.L[len(g.L)-1], g.S[len(g.S)-1]),
+			"p2": qos(g.A[len(g.A)/2], g.L[len(g.L)/2], g.S[len(g.S)/2]),
+			"p3": qos(g.A[0], g.L[0], g.S[0]),
+		}
+		provs := []string{"p1", "p2", "p3"}
+		seed := in.Seed + int64(gi)
+		sel.SetDeterministicSeed(seed)
+		mir := stdrand.New(stdrand.NewSource(seed))
+		getter := func(addr string) (*pairingtypes.QualityOfServiceReport, time.Time, bool) { return qs[addr], time.Now(), true }
+		stakes := map[string]int64{"p1": 10, "p2": 50, "p3": 200}
+		scores, _, details := sel.CalculateProviderScores(provs, map[string]struct{}{}, getter, func(a string) int64 { return stakes[a] })
+		allFinite, allRange := true, true
+		total := 0.0
+		cum := []float64{}
+		for _, sc := range scores {
+			w := sc.SelectionWeight
+			if !finite(w) {
+				allFinite = false
+			}
+			if !(finite(w) && w >= mc && w <= 1) {
+				allRange = false
+			}
+			total += w
+		}
+		c := 0.0
+		for _, sc := range scores {
+			c += sc.SelectionWeight
+			cum = append(cum, c)
+		}
+		for d := 0; d < in.RealDraws; d++ {
+			pick, stats := sel.SelectProviderWithStats(ctx, scores, details)
+			idx := -1
+			for i, sc := range scores {
+				if sc.Address == pick {
+					idx = i
+				}
+			}
+			rec := M{"ev": "real", "strategy": grp.Strategy, "lw": grp.LW, "sw": grp.SW, "n": len(scores), "pick": pick, "idx": idx,
+				"finite": allFinite && finite(total), "inRange": allRange, "uniform": false, "lowOk": false, "highOk": false, "ucmp": 0, "rngOk": false}
+			if len(scores) >= 2 && total > 0 && stats != nil {
+				u := mir.Float64()
+				r := stats.RNGValue
+				rec["ucmp"] = sign(u*total - r)
+				if !finite(u*total) || !finite(r) {
+					rec["ucmp"] = 2
+				}
+				rec["rngOk"] = r >= 0 && r < total
+				if idx >= 0 {
+					rec["lowOk"] = idx == 0 || r > cum[idx-1] // not owned by an earlier provider
+					rec["highOk"] = r <= cum[idx]             // inside the pick's own interval
+				}
+			} else if len(scores) >= 2 && !(total > 0) && finite(total) {
+				rec["uniform"] = true
+				j := mir.Intn(len(scores))
+				rec["lowOk"], rec["highOk"], rec["rngOk"] = idx == j, idx == j, true
+			}
+			out.Emit(rec)
 		}
 	}
 	out.Close()
